@@ -543,10 +543,9 @@ func disposableOf(instance any) (Disposable, bool) {
 // and so closed - only once.
 func (s *scope) storeOutputOnce(stored *[]any, descriptor *Descriptor, key instanceKey, value any) error {
 	repeated := false
-	if v := reflect.ValueOf(value); v.Kind() == reflect.Pointer && !v.IsNil() && v.Type().Elem().Size() > 0 {
-		// only a pointer to something of non-zero size identifies an instance
+	if v := reflect.ValueOf(value); isInstanceReference(v) {
 		for _, earlier := range *stored {
-			if e := reflect.ValueOf(earlier); e.Kind() == reflect.Pointer && e.Type() == v.Type() && e.Pointer() == v.Pointer() {
+			if e := reflect.ValueOf(earlier); e.IsValid() && e.Type() == v.Type() && e.Pointer() == v.Pointer() {
 				repeated = true
 				break
 			}
@@ -575,6 +574,21 @@ func (s *scope) storeOutputOnce(stored *[]any, descriptor *Descriptor, key insta
 	}
 
 	return nil
+}
+
+// isInstanceReference reports whether v refers to an instance that can be
+// recognised when it turns up again: a non-nil map or channel, or a non-nil
+// pointer to something of non-zero size (pointers to zero-size values may all
+// be equal).
+func isInstanceReference(v reflect.Value) bool {
+	switch v.Kind() {
+	case reflect.Pointer:
+		return !v.IsNil() && v.Type().Elem().Size() > 0
+	case reflect.Map, reflect.Chan:
+		return !v.IsNil()
+	default:
+		return false
+	}
 }
 
 var (
